@@ -34,6 +34,11 @@ type Contract struct {
 	Modifies   []Clause
 	PanicsWhen []Clause
 	Applies    []Clause // lemma applications at return: name(args) evaluated over the locals at return
+	UnrollCalls map[string]int // callee name -> unroll count: executed in place with loops unrolled
+	SplitParam string // case split on an integer parameter over [SplitLo, SplitHi]
+	SplitLo    int64
+	SplitHi    int64
+	Bounded    string // non-empty: this is a bounded stand-in (harness); text states the bound
 	Reveal     []string // opaque spec functions whose definition is made available to this function's queries
 	Loops      map[int]*LoopSpec
 	Inline     bool
@@ -69,7 +74,7 @@ type ContractFile struct {
 }
 
 var clauseKeywords = map[string]bool{"requires": true, "ensures": true, "claims": true, "modifies": true, "panics_when": true, "loop": true,
-	"inline": true, "trusted": true, "nobody": true, "var": true, "assume": true, "prove": true, "props": true, "apply": true, "reveal": true}
+	"inline": true, "trusted": true, "nobody": true, "var": true, "assume": true, "prove": true, "props": true, "apply": true, "reveal": true, "unroll_calls": true, "bounded": true, "split": true}
 
 func parseContractFile(path, pkgPath string) (*ContractFile, error) {
 	data, err := os.ReadFile(path)
@@ -215,6 +220,33 @@ func parseContractFile(path, pkgPath string) (*ContractFile, error) {
 			addClause(&cur.Applies, rest, ln+1)
 		case "reveal":
 			cur.Reveal = append(cur.Reveal, fields[1:]...)
+			curSlot = nil
+		case "bounded":
+			cur.Bounded = rest
+			curSlot = nil
+		case "split":
+			if len(fields) != 4 {
+				return nil, fmt.Errorf("%s:%d: split <param> <lo> <hi>", path, ln+1)
+			}
+			lo, err1 := strconv.ParseInt(fields[2], 10, 64)
+			hi, err2 := strconv.ParseInt(fields[3], 10, 64)
+			if err1 != nil || err2 != nil || hi < lo || hi-lo > 64 {
+				return nil, fmt.Errorf("%s:%d: bad split range", path, ln+1)
+			}
+			cur.SplitParam, cur.SplitLo, cur.SplitHi = fields[1], lo, hi
+			curSlot = nil
+		case "unroll_calls":
+			if len(fields) != 3 {
+				return nil, fmt.Errorf("%s:%d: unroll_calls <function> <count>", path, ln+1)
+			}
+			k, err := strconv.Atoi(fields[2])
+			if err != nil {
+				return nil, fmt.Errorf("%s:%d: bad unroll count", path, ln+1)
+			}
+			if cur.UnrollCalls == nil {
+				cur.UnrollCalls = map[string]int{}
+			}
+			cur.UnrollCalls[fields[1]] = k
 			curSlot = nil
 		case "modifies":
 			for _, part := range splitTop(rest) {
